@@ -72,7 +72,7 @@ def predefined_ctx():
 
 
 def user_ctx(rng, length=14):
-    g = HistGen(rng, with_invalid=False)
+    g = HistGen(rng, with_invalid=False, split_items=.4)
     steps = g.history(length)
     w = g.w
     units = {s: dict(cls=u["cls"], scale=u["scale"]) for s, u in w.units.items()}
